@@ -7,6 +7,7 @@ import (
 	"github.com/prometheus/prometheus/model/labels"
 	"github.com/prometheus/prometheus/storage"
 	"github.com/prometheus/prometheus/tsdb/chunkenc"
+	"github.com/prometheus/prometheus/util/annotations"
 )
 
 // verifIter is a slice-backed chunkenc.Iterator honouring the iterator contract:
@@ -50,11 +51,12 @@ func (it *verifIter) AtT() int64 { return it.ts[it.i] }
 func (it *verifIter) Err() error { return nil }
 
 type verifSeries struct {
-	ts []int64
-	vs []float64
+	ts   []int64
+	vs   []float64
+	lset labels.Labels
 }
 
-func (s *verifSeries) Labels() labels.Labels { return labels.EmptyLabels() }
+func (s *verifSeries) Labels() labels.Labels { return s.lset }
 func (s *verifSeries) Iterator(chunkenc.Iterator) chunkenc.Iterator {
 	return &verifIter{ts: s.ts, vs: s.vs, i: -1}
 }
@@ -261,6 +263,76 @@ func VerifC01SeekAfterNext() {
 	verifAssert(idx == len(got), "seek-suffix-extra-sample")
 	if idx > 0 {
 		verifReach("nonempty-suffix")
+	}
+	verifReach("end")
+}
+
+// verifSet is a storage.SeriesSet over a list of series (sorted by labels, replicas adjacent).
+type verifSet struct {
+	series []storage.Series
+	i      int
+}
+
+func (s *verifSet) Next() bool                        { s.i++; return s.i < len(s.series) }
+func (s *verifSet) At() storage.Series                { return s.series[s.i] }
+func (s *verifSet) Err() error                        { return nil }
+func (s *verifSet) Warnings() annotations.Annotations { return nil }
+
+// VerifC01SeriesSet: the observation point named by the property - the iterators of the series returned by
+// dedup.NewSeriesSet(...).At(), iterated after the set has been advanced (clients may keep the series).
+func VerifC01SeriesSet() {
+	lim := int64(1) << 40
+	groups := verifIntRange("groups", 1, verifParam("G", 2))
+	var all []storage.Series
+	var byGroup [][]storage.Series
+	names := [3]string{"1", "2", "3"}
+	for g := 0; g < groups; g++ {
+		r := verifIntRange(verifName("r", g), 1, verifParam("R", 2))
+		var grp []storage.Series
+		for k := 0; k < r; k++ {
+			n := verifIntRange(verifName("n", g, k), 1, verifParam("N", 2))
+			s := &verifSeries{ts: make([]int64, n), vs: make([]float64, n), lset: labels.FromStrings("a", names[g])}
+			for j := 0; j < n; j++ {
+				t := verifInt64(verifName("t", g, k, j))
+				verifAssume(-lim <= t)
+				verifAssume(t <= lim)
+				if j > 0 {
+					verifAssume(s.ts[j-1] < t)
+				}
+				s.ts[j] = t
+				s.vs[j] = verifFloat(verifName("v", g, k, j))
+			}
+			grp = append(grp, s)
+			all = append(all, s)
+		}
+		byGroup = append(byGroup, grp)
+	}
+	set := NewSeriesSet(&verifSet{series: all, i: -1}, "", AlgorithmPenalty)
+	var kept []storage.Series
+	for set.Next() {
+		kept = append(kept, set.At())
+		verifAssert(len(kept) <= groups, "one-series-per-label-set")
+		if len(kept) > groups {
+			return
+		}
+	}
+	verifAssert(len(kept) == groups, "all-label-sets-returned")
+	if len(kept) != groups {
+		return
+	}
+	for g, s := range kept {
+		verifAssert(labels.Equal(s.Labels(), labels.FromStrings("a", names[g])), "series-labels")
+		out := verifDrain(s.Iterator(nil), chunkenc.ValNone, false, verifTotal(byGroup[g]))
+		for i, smp := range out {
+			if i > 0 {
+				verifAssert(out[i-1].t < smp.t, "strictly-increasing")
+			}
+			verifAssert(verifHeld(byGroup[g], smp.t, smp.v), "provenance-own-replicas")
+		}
+		verifAssert(len(out) > 0, "nonempty-series-yields-samples")
+	}
+	if groups > 1 {
+		verifReach("two-groups")
 	}
 	verifReach("end")
 }
